@@ -172,3 +172,18 @@ JOBS = {
 JOBS_BASE.update({k: v for k, v in JOBS.items()})
 for _p in ("C07", "C13"):
     JOBS[_p] = JOBS[_p] + derived(["MC_HeaderDecode", "MC_MsgDecode", "MC_KeyDecode", "MC_Cwt", "MC_Kdf"] + (["MC_Tag"] if _p == "C07" else []))
+
+
+def trace_job(fams):
+    return {"kind": "trace", "name": "trace:" + "+".join(fams), "fams": fams,
+            "quick": {"sessions": 150, "timeout": 600}, "thorough": {"sessions": 4000, "timeout": 3000}}
+
+
+TRACE_FAMS = {
+    "C02": ["valid", "follow"], "C03": ["struct-sig", "follow"], "C04": ["struct-mac", "follow"], "C05": ["struct-enc", "follow"],
+    "C06": ["lifecycle"], "C07": ["valid", "header", "key"], "C08": ["header"], "C09": ["msg"], "C10": ["key"], "C11": ["builder", "lifecycle"],
+    "C12": ["header", "key", "cwtkdf"], "C13": ["valid", "msg"], "C14": ["msg"], "C15": ["header", "key", "cwtkdf"], "C16": ["cmp"],
+    "C18": ["cwtkdf"], "C19": ["builder"], "C20": ["canon"],
+}
+for _p, _f in TRACE_FAMS.items():
+    JOBS[_p] = JOBS[_p] + [trace_job(_f)]
